@@ -35,7 +35,7 @@ PROPS = {
         "assumptions": COMMON_ASSUME,
     },
     "C04": {
-        "rules": ["R-NOTFOUND", "R-WINDOW", "R-ALPHAGUARD", "R-BUCKET", "R-FMMAP", "R-SCANEXIT", "R-PURE-PREFIX", "R-CMPSIGN", "R-BSEARCH", "R-SCANSIGN", "R-BISECT", "R-IDRANGE"],
+        "rules": ["R-NOTFOUND", "R-WINDOW", "R-ALPHAGUARD", "R-BUCKET", "R-FMMAP", "R-SCANEXIT", "R-PURE-PREFIX", "R-CMPSIGN", "R-BSEARCH", "R-SCANSIGN", "R-BISECT", "R-IDRANGE", "R-EXTENT-FM"],
         "explanation": "The structural half of prefix search: the not-found protocol of the in-bucket search helpers (all five front-coding kinds), "
                        "agreement between the located ID range and the window handed to the string iterator under that iterator class's own "
                        "first/end protocol (symbolic count = right-left+1, incl. the empty range), alphabet guard for absent bytes.",
@@ -46,23 +46,26 @@ PROPS = {
                     "three-way string comparators are oriented one way on all their paths (sign polarity of the pattern bytes in every returned value, R-CMPSIGN)",
                     "binary searches move the bound the comparator's orientation dictates, and in-bucket scans give up only once the stored string is larger (R-BSEARCH, R-SCANSIGN)",
                     "the left/right boundary bisections of prefix search cover the whole interval the main binary search left open, with the step forms of a closed resp. half-open interval (R-BISECT)",
-                    "the contiguous ID iterator yields exactly [left,right] and nothing for the (NORESULT,NORESULT) pair (R-IDRANGE)"],
+                    "the contiguous ID iterator yields exactly [left,right] and nothing for the (NORESULT,NORESULT) pair (R-IDRANGE)",
+                    "the FM-index tables (occ, alphabet, samples) are saved with the extent they are allocated with, so a loaded index is indexed within bounds like a built one (R-EXTENT-FM)"],
         "not_decided": ["correctness of the boundary binary searches and in-bucket scans on actual data (value-level)"],
         "assumptions": COMMON_ASSUME,
     },
     "C05": {
-        "rules": ["R-DEDUP", "R-DUPSKIP", "R-SAMPLECOUNT", "R-STUB", "R-ALPHAGUARD", "R-PURE-SUBSTR"],
+        "rules": ["R-DEDUP", "R-DUPSKIP", "R-SAMPLECOUNT", "R-STUB", "R-ALPHAGUARD", "R-PURE-SUBSTR", "R-EXTENT-FM", "R-STALESIZE"],
         "explanation": "Only the de-duplication protocol and the configuration guard are decided: the occurrence array is sorted over exactly [a,a+n) "
                        "and carries the 0 sentinel at a[n] before a duplicate-skipping iterator is created, is allocated with n+1 entries, and the "
                        "BWTsampling==0 configuration is an effect-free stub.",
         "decided": ["sort-before-dedup over the exact range, sentinel store, allocation extent matches+1 (R-DEDUP)",
                     "BWTsampling==0 guard first, stub region returns null (R-STUB)", "absent bytes are rejected before indexing (R-ALPHAGUARD)",
-                    "locateSubstr/extractSubstr and the iterators they return write no dictionary state, static or borrowed memory (R-PURE-SUBSTR)"],
+                    "locateSubstr/extractSubstr and the iterators they return write no dictionary state, static or borrowed memory (R-PURE-SUBSTR)",
+                    "the FM-index tables (occ, alphabet, samples) are saved with the extent they are allocated with, so a loaded index is indexed within bounds like a built one (R-EXTENT-FM)",
+                    "iterator bounds taken from container.size() are not made stale by a later shrink of the container (R-STALESIZE)"],
         "not_decided": ["backward search, LF-walk and the position-to-ID mapping through the separator bitmap (value-level): the core of the property"],
         "assumptions": COMMON_ASSUME,
     },
     "C01": {
-        "rules": ["R-STATE", "R-INITCOVER", "R-MIRROR", "R-IDGUARD", "R-SELECTRANGE", "R-PROBE", "R-BUCKET", "R-FMMAP", "R-BYTEORDER", "R-PURE-BASIC", "R-SLOT", "R-CLAMP", "R-CMPSIGN", "R-BSEARCH", "R-SCANSIGN"],
+        "rules": ["R-STATE", "R-INITCOVER", "R-MIRROR", "R-IDGUARD", "R-SELECTRANGE", "R-PROBE", "R-BUCKET", "R-FMMAP", "R-BYTEORDER", "R-PURE-BASIC", "R-SLOT", "R-CLAMP", "R-CMPSIGN", "R-BSEARCH", "R-SCANSIGN", "R-CHUNKINIT"],
         "explanation": "The clause `for the freshly built object and the reloaded one alike` is decided structurally: for every kind and both "
                        "creation paths, every field read by a query on an object of a class that path instantiates (rapid type analysis, virtual "
                        "calls resolved to final overriders of instantiated classes) is assigned by code reachable from that creation path, pointer "
@@ -76,7 +79,8 @@ PROPS = {
                     "in the block dictionary each finished block is stored in the slot reserved for it at submission, so parts[k] matches cut_samples[k]/starting_indexes[k] (R-SLOT)",
                     "the build loop and the queries use the same (clamped) bucket size (R-CLAMP)",
                     "three-way string comparators are oriented one way on all their paths (sign polarity of the pattern bytes in every returned value, R-CMPSIGN)",
-                    "binary searches move the bound the comparator's orientation dictates, and in-bucket scans give up only once the stored string is larger (R-BSEARCH, R-SCANSIGN)"],
+                    "binary searches move the bound the comparator's orientation dictates, and in-bucket scans give up only once the stored string is larger (R-BSEARCH, R-SCANSIGN)",
+                    "every chunk scan handed to the Huffman/Hu-Tucker chunk decoder starts from the same state as its siblings (R-CHUNKINIT)"],
         "not_decided": ["that decoding inverts encoding for every string (Hu-Tucker, Huffman, Re-Pair, DAC, rank/select values)", "binary-search correctness",
                         "HHTFC / RPHTFC mis-decode small inputs even when reloaded (seen by triage probes replays/t_roundtrip.cpp; value-level, outside every rule)"],
         "assumptions": COMMON_ASSUME,
@@ -174,7 +178,7 @@ PROPS = {
         "assumptions": COMMON_ASSUME,
     },
     "C13": {
-        "rules": ["R-OUTLEN", "R-WINDOW", "R-DEDUP", "R-DUPSKIP", "R-FMMAP", "R-STUB", "R-QUERYPURE", "R-IDRANGE"],
+        "rules": ["R-OUTLEN", "R-WINDOW", "R-DEDUP", "R-DUPSKIP", "R-FMMAP", "R-STUB", "R-QUERYPURE", "R-IDRANGE", "R-STALESIZE", "R-CHUNKINIT"],
         "explanation": "Iterator protocol rules: every next() stores the length on every path to a non-null return and advances a field that "
                        "hasNext() reads (or consumes its work list) on every path; windows given at every extractTable/extractPrefix site match "
                        "the class protocol; duplicate-skipping iterators never read past their array (sentinel + extent); iterator steps write "
@@ -182,7 +186,9 @@ PROPS = {
         "decided": ["length reported and cursor advanced on every path (R-OUTLEN)", "window = numElements / right-left+1 at every construction site (R-WINDOW)",
                     "sentinel and extent for duplicate skipping (R-DEDUP)", "XBW::extractTable is an effect-free stub (R-STUB)",
                     "iterator steps do not write borrowed dictionary storage (R-QUERYPURE)",
-                    "the contiguous ID iterator yields exactly [left,right] and nothing for the (NORESULT,NORESULT) pair (R-IDRANGE)"],
+                    "the contiguous ID iterator yields exactly [left,right] and nothing for the (NORESULT,NORESULT) pair (R-IDRANGE)",
+                    "iterator bounds taken from container.size() are not made stale by a later shrink of the container (R-STALESIZE)",
+                    "every chunk scan handed to the Huffman/Hu-Tucker chunk decoder starts from the same state as its siblings (R-CHUNKINIT)"],
         "not_decided": ["that the strings produced are the right ones and NUL-terminated after decoding (value-level)"],
         "assumptions": COMMON_ASSUME,
     },
